@@ -23,32 +23,81 @@ META = dict(
 
 
 def rule_wait(ctx):
+    """refresh_wait() = max(time until next_update_start or zero if that has passed, floor) with floor = min_refresh if
+    configured, else refresh - as a truth table over the paths, whatever the shape (cmp::max, an explicit comparison,
+    unwrap_or_else with a zero closure or a match on the Result)."""
     b = ctx.body('payload::history::PayloadHistory::refresh_wait')
-    paths = enumerate_paths(b, ctx.facts)
+    paths = [p for p in enumerate_paths(b, ctx.facts) if p.kind == 'return']
     ctx.floor('K4', 'paths of refresh_wait', len(paths), 2)
-    zero = False
+    ZERO = {'call:Duration::from_secs(const(0))', 'const(Duration::ZERO)', 'call:Default>::default', 'const(std::time::Duration::ZERO)',
+            'call:Duration::from_millis(const(0))', 'call:Duration::new(const(0),const(0))'}
+    zero_closure = False
     for c in ctx.closures(b):
         outs = set(p.outcome for p in enumerate_paths(c, ctx.facts))
-        if outs <= {'call:Duration::from_secs(const(0))', 'const(Duration::ZERO)', 'call:Default>::default', 'const(std::time::Duration::ZERO)'} and outs:
-            zero = True
+        if outs and outs <= ZERO:
+            zero_closure = True
+    DS = 'call:SystemTime::duration_since(self.next_update_start,call:SystemTime::now)'
+
+    def split2(inner):
+        depth = 0
+        for i, ch in enumerate(inner):
+            depth += ch == '('
+            depth -= ch == ')'
+            if ch == ',' and depth == 0:
+                return inner[:i], inner[i + 1:]
+        return inner, ''
+    seen = set()
     for p in paths:
-        mr = [labs for v, labs in p.cond_map().items() if v == 'self.min_refresh']
-        o = p.outcome
-        m = re.match(r'^call:cmp::max\((.*),([^,]*)\)$', o)
-        if not m:
-            ctx.bad('K4', 'refresh_wait:shape', 'refresh_wait returns `%s`, not max(time-until-next-update, floor)' % o)
+        cm = p.cond_map()
+        mr = [set(labs) for v, labs in cm.items() if v == 'self.min_refresh']
+        floor = 'self.refresh' if mr and mr[0] == {'None'} else ('self.min_refresh@Some.0' if mr and mr[0] == {'Some'} else None)
+        ds = [set(labs) for v, labs in cm.items() if v == DS]
+        # the remaining time on this path
+        if ds and ds[0] == {'Ok'}:
+            until = {DS + '@Ok.0'}
+        elif ds and ds[0] == {'Err'}:
+            until = set(ZERO)
+        else:
+            until = {u for u in ['call:Result::unwrap_or_else(%s,refresh_wait::{closure#%d}())' % (DS, i) for i in range(4)]} if zero_closure else set()
+            until |= {'call:Result::unwrap_or_default(%s)' % DS, 'call:Result::unwrap_or(%s,%s)' % (DS, 'call:Duration::from_secs(const(0))')}
+        o = p.outcome or ''
+        seen.add(('floor', floor))
+        ctx.check(floor is not None, 'K4', 'refresh_wait:floor-selected', 'the floor is chosen by min_refresh', 'a path of refresh_wait does not test min_refresh')
+        if floor is None:
             continue
-        until, floor = m.group(1), m.group(2)
-        want = 'self.refresh' if mr and mr[0] == {'None'} else 'self.min_refresh@Some.0'
-        ctx.check(floor == want, 'K4', 'refresh_wait:floor:min_refresh=%s' % (sorted(mr[0]) if mr else '?'),
-                  'floor is %s' % floor, 'with min_refresh %s the floor of the wait is `%s`, expected `%s`' % (sorted(mr[0]) if mr else '?', floor, want))
-        ok_until = until.startswith('call:Result::unwrap_or_else(call:SystemTime::duration_since(self.next_update_start,call:SystemTime::now)') and zero
+        key = 'min_refresh=%s' % ('None' if floor == 'self.refresh' else 'Some')
+        m = re.match(r'^call:(?:cmp::max|Ord>?::max)\((.*)\)$', o)
+        if m:
+            a1, a2 = split2(m.group(1))
+            ok_floor = floor in (a1, a2)
+            other = a2 if a1 == floor else a1
+            ok_until = other in until
+        else:
+            # explicit comparison of the two
+            cmpv = [(v, set(l)) for v, l in cm.items() if v.startswith('cmp(') and floor in split2(v[4:-1])]
+            ok_floor = ok_until = False
+            if cmpv:
+                v, labs = cmpv[0]
+                a1, a2 = split2(v[4:-1])
+                other = a2 if a1 == floor else a1
+                other_first = a1 != floor
+                other_larger = labs == ({'Greater'} if other_first else {'Less'})
+                floor_larger_or_equal = 'Equal' in labs or labs == ({'Less'} if other_first else {'Greater'})
+                ok_until = other in until
+                ok_floor = (other_larger and o == other) or (not other_larger and floor_larger_or_equal and o in (floor, other) and (o == floor or labs == {'Equal'}))
+            elif ds and ds[0] == {'Err'} and o == floor:
+                ok_floor = ok_until = True      # nothing left to wait for: the floor itself
+        ctx.check(ok_floor, 'K4', 'refresh_wait:floor:%s' % key, 'the wait is never shorter than %s' % floor,
+                  'with %s refresh_wait returns `%s`: the wait must be the larger of the remaining time and `%s`' % (key, o[:160], floor),
+                  loc=p.ret_site.loc() if p.ret_site else None)
         ctx.check(ok_until, 'K4', 'refresh_wait:past-deadline=>zero',
                   'time until next_update_start, ZERO if it already passed',
-                  'the remaining time is computed as `%s`: when next_update_start already lies in the past (data set expired) the '
-                  'fallback must be a zero duration so that the wait collapses to the floor (min-refresh); anything else delays the '
-                  're-validation of expired data' % until[:160], loc=p.ret_site.loc() if p.ret_site else None)
-        ctx.sample(dict(min_refresh=sorted(mr[0]) if mr else None, result=o[:200]))
+                  'the remaining time in `%s` is not `next_update_start - now, or zero when that lies in the past`: when the data set has '
+                  'expired the wait must collapse to the floor (min-refresh); anything else delays the re-validation of expired data' % o[:160],
+                  loc=p.ret_site.loc() if p.ret_site else None)
+        ctx.sample(dict(min_refresh=key, result=o[:200]))
+    ctx.check({('floor', 'self.refresh'), ('floor', 'self.min_refresh@Some.0')} <= seen, 'K4', 'refresh_wait:both-floors',
+              'both floors occur', 'refresh_wait no longer distinguishes min_refresh set / unset')
 
 
 def rule_next_start(ctx):
@@ -72,7 +121,17 @@ def rule_next_start(ctx):
                           'now + refresh is kept when the data set does not expire earlier', 'now + refresh kept although the data set expires earlier')
         else:
             def earlier(v, labs):
-                first_is_expiry = ('next_update_start' not in v) or v.index('and_then(') < v.index('next_update_start')
+                # cmp(A,B) with canonical operand order: which side is the data set's expiry?
+                inner = v[4:-1] if v.startswith('cmp(') and v.endswith(')') else v
+                depth, cut = 0, None
+                for i, ch in enumerate(inner):
+                    depth += ch == '('
+                    depth -= ch == ')'
+                    if ch == ',' and depth == 0:
+                        cut = i
+                        break
+                a, b_ = (inner[:cut], inner[cut + 1:]) if cut is not None else (inner, '')
+                first_is_expiry = 'and_then(' in a and 'and_then(' not in b_
                 return labs == ({'Less'} if first_is_expiry else {'Greater'})
             ok = bool(snap) and all(earlier(v, labs) for v, labs in snap) and 'PayloadSnapshot::refresh' in ' '.join(
                 pp.outcome for c in ctx.closures(b) for pp in enumerate_paths(c, ctx.facts))
@@ -85,7 +144,7 @@ def rule_next_start(ctx):
         ok, who = owned_by(ctx, bb.nid, ['SharedHistory::mark_update_done'])
         ctx.check(ok, 'K3', 'next_update_start-writer<-%s' % who, 'written in mark_update_done',
                   'next_update_start written in %s' % bb.nid, loc=site.loc())
-    ctx.floor('K3', 'assignments to next_update_start', len(ws), 2)
+    ctx.floor('K3', 'assignments to next_update_start', len(ws), 1)
     cs = ctx.facts.callers('payload::history::PayloadHistory::refresh_wait')
     ctx.check(any(s.body.nid.startswith('operation::Server::run') for s in cs), 'K3', 'server-loop-uses-refresh_wait',
               'the server loop takes its wait from refresh_wait()', 'refresh_wait() is not used by the server loop')
